@@ -174,7 +174,14 @@ def run_check(pid, tier, seed, replay=None):
 
     # ---- correspondence ----------------------------------------------------------------------
     t_c = time.time()
-    reqs = [mod.request(c) for c in cases]
+    reqs = []
+    for c in cases:
+        try:
+            reqs.append(mod.request(c))
+        except RecursionError:
+            reqs.append("(request-raised RecursionError)")
+        except Exception as e:  # the request may call the real code (e.g. to tabulate a third-party converter)
+            reqs.append("(request-raised %s)" % type(e).__name__)
     model_idx = [i for i, r in enumerate(reqs) if r is not None]
     impl_out = pmap(_impl_one, modname, cases)
     driver_ok = os.path.exists(lean.DRIVER)
